@@ -202,6 +202,38 @@ def check_library(ctx, lib):
                 rn = tables.result(none[0][2])
                 ok = ok and (any(suffix_match(c[1], "LTermInner::Empty") for c in sym.ctors(rn)) or any(suffix_match(c[1], "empty_list") for c in sym.calls(rn)))
         ctx.expect(ok, R, "Option|into-term", site_of(fn), "Some(x) becomes the compound term of x, None the empty list; found %s" % show(t, maxdepth=6)[:200])
+        # the payload type is generic (`T: CompoundObject`), and LTerm itself is a CompoundObject whose children()
+        # is empty for every non-compound term (table `LTerm|children` below): an LTerm wrapped as an opaque
+        # object unifies with any other wrapped LTerm (F18: `q == Some(1), q == Some(2)` had an answer).
+        # So the wrap must be the None-arm of a dispatch on as_term(), whose Some-arm is the term itself.
+        good = False
+        if ok:
+            rs = tables.result(some[0][2])
+            payload = ("proj", m[1], ANY, 0)
+            if rs[0] == "match" and rs[1][0] == "call" and suffix_match(rs[1][1], "as_term") and unify(payload, rs[1][2][0]) is not None:
+                s2 = tables.find_arm(rs, "Some")
+                n2 = [a for a in rs[2] if a not in s2]
+                if len(s2) == 1 and len(n2) == 1:
+                    tr = tables.result(s2[0][2])
+                    while tr[0] == "call" and suffix_match(tr[1], "clone") and len(tr[2]) == 1:
+                        tr = tr[2][0]
+                    good = tr == ("proj", rs[1], "std::prelude::v1::Some", 0) and any(suffix_match(c[1], "LTermInner::Compound") for c in sym.ctors(n2[0][2]))
+        ctx.expect(good, R, "Option|into-term|term-payload-is-not-wrapped", site_of(fn), "Some(x) with x already a term must upcast to x itself (dispatch on x.as_term()); only a non-term object is wrapped as LTermInner::Compound")
+    # who may wrap an object as a compound term: every caller of LTerm::from(Rc<dyn CompoundObject>) is classified
+    WRAP_SITES = {
+        "crate::compound<impl std::convert::Into<crate::lterm::LTerm> for std::option::Option>::into": "generic payload: guarded by the as_term() dispatch above",
+        "crate::compound<impl std::convert::Into<crate::lterm::LTerm> for (crate::lterm::LTerm, crate::lterm::LTerm)>::into": "concrete pair object (children = its two components)",
+    }
+    evn = sym.Evaluator(lib, inline=lambda p_, f_: False)
+    nw = 0
+    for p_, f_ in sorted(lib.fns.items()):
+        if "hir" not in f_ or f_.get("in_test_mod"):
+            continue
+        if any("From<std::rc::Rc<(dyn crate::compound::CompoundObject)>>>::from" in c[1] for c in sym.calls(evn.fn_term(f_)) if isinstance(c[1], str)):
+            nw += 1
+            ctx.fn_seen(p_)
+            ctx.expect(p_ in WRAP_SITES, R, "wrap-site|%s" % p_, site_of(f_), "new site wraps an object as a compound term (LTerm::from(Rc<dyn CompoundObject>)): classify it - a generic payload must dispatch on as_term() first")
+    ctx.floor(R, nw, 2, "sites wrapping an object as a compound term")
     fn = fnof("<crate::lterm::LTerm as crate::compound::CompoundObject>::children")
     if fn:
         t = ev.fn_term(fn)
